@@ -189,6 +189,7 @@ func (c *Ctx) ruleMapOrder(rule string, m *core.Module, fns map[*ssa.Function]bo
 			c.checkLoopExits(rule, m, l, base, pos)
 			c.checkLoopAccumulation(rule, m, l, base, pos)
 			c.checkLoopCarriedReads(rule, m, l, base, pos)
+			c.checkConvertedKeyInsert(rule, m, l, base, pos)
 		}
 	}
 }
@@ -1062,6 +1063,8 @@ func (c *Ctx) checkLoopCarriedReads(rule string, m *core.Module, l *mapLoop, bas
 				k := key(base, sprintf("read #%d of the map the loop fills (%s)", n, c.stableIn(m, l.fn, m.ValPath(x.X))))
 				if keys[x.Index] {
 					c.R.Ok(rule, k, m.InstrPos(x), "read of a map that the loop also updates", "the read is at the loop's own key: it cannot see another iteration's insertion")
+				} else if c.isDuplicateReject(l, x) {
+					c.R.Ok(rule, k, m.InstrPos(x), "read of a map that the loop also updates", "a duplicate test on the key about to be inserted whose 'present' branch leaves the loop: the verdict (reject) does not depend on the order")
 				} else {
 					c.R.Bad(rule, k, m.InstrPos(x), "the loop reads the map it is filling at a key other than the current one",
 						"whether that entry is already there depends on which iterations ran before: the verdict or result depends on the map iteration order")
@@ -1110,4 +1113,136 @@ func (c *Ctx) checkLoopCarriedReads(rule string, m *core.Module, l *mapLoop, bas
 			}
 		}
 	}
+}
+
+// ---- insertion under a converted key ----------------------------------------------------------------------------------
+//
+// A loop over a map that inserts into its result under conv(key) - the key after conversion by a child schema -
+// makes two source entries whose keys convert to the same value (1 and "1", "1m" and "60s", int32(1) and int64(1))
+// overwrite each other: which one survives, and whether size bounds checked on the source still hold, depends on the
+// iteration order. Such an insertion must be preceded, on every path, by a presence test of that key in the result
+// whose "present" branch does not reach the insertion.
+func (c *Ctx) checkConvertedKeyInsert(rule string, m *core.Module, l *mapLoop, base, pos string) {
+	keys := loopKeys(l)
+	derived := func(v ssa.Value) bool {
+		// v is (a result of) a call that received the loop key
+		for i := 0; i < 4; i++ {
+			switch x := v.(type) {
+			case *ssa.Extract:
+				v = x.Tuple
+				continue
+			case *ssa.Call:
+				if core.StaticCalleeName(&x.Call) == "reflect.ValueOf" && len(x.Call.Args) == 1 {
+					v = x.Call.Args[0]
+					continue
+				}
+				for _, a := range x.Call.Args {
+					if keys[a] {
+						return true
+					}
+				}
+				return false
+			case *ssa.MakeInterface:
+				v = x.X
+				continue
+			}
+			return false
+		}
+		return false
+	}
+	n := 0
+	for _, b := range l.fn.Blocks {
+		if !l.blocks[b] {
+			continue
+		}
+		for _, in := range b.Instrs {
+			var target, key ssa.Value
+			switch x := in.(type) {
+			case *ssa.MapUpdate:
+				target, key = x.Map, x.Key
+			case *ssa.Call:
+				if core.StaticCalleeName(&x.Call) == "(reflect.Value).SetMapIndex" && len(x.Call.Args) == 3 {
+					target, key = x.Call.Args[0], x.Call.Args[1]
+				}
+			}
+			if target == nil || target == l.mapVal || keys[key] || !derived(key) {
+				continue
+			}
+			n++
+			k := key2(base, sprintf("insertion #%d under a converted key is preceded by a duplicate test", n))
+			tested := false
+			for _, cond := range core.CondsAt(b) {
+				switch y := cond.V.(type) {
+				case *ssa.Extract:
+					if lk, ok := y.Tuple.(*ssa.Lookup); ok && y.Index == 1 && lk.CommaOk && lk.X == target && sameKeyValue(lk.Index, key) && !cond.True {
+						tested = true
+					}
+				case *ssa.Call:
+					if core.StaticCalleeName(&y.Call) == "(reflect.Value).IsValid" && !cond.True {
+						if mi, ok := y.Call.Args[0].(*ssa.Call); ok && core.StaticCalleeName(&mi.Call) == "(reflect.Value).MapIndex" && mi.Call.Args[0] == target && sameKeyValue(mi.Call.Args[1], key) {
+							tested = true
+						}
+					}
+				}
+			}
+			if tested {
+				c.R.Ok(rule, k, m.InstrPos(in), "insertion under a converted key", "dominated by a test that the key is not in the result yet")
+			} else {
+				c.R.Bad(rule, k, m.InstrPos(in), "the loop inserts under a converted key without testing for a duplicate",
+					"two source keys that convert to the same key (1 and \"1\", \"1m\" and \"60s\") overwrite each other: the surviving entry, and whether the size bounds checked on the source hold for the result, depend on the map iteration order")
+			}
+		}
+	}
+}
+
+func key2(base, what string) string { return base + " | " + what }
+
+func sameKeyValue(a, b ssa.Value) bool {
+	if a == b {
+		return true
+	}
+	// reflect.ValueOf(x) twice, or a stored copy
+	ca, oka := a.(*ssa.Call)
+	cb, okb := b.(*ssa.Call)
+	if oka && okb && core.StaticCalleeName(&ca.Call) == "reflect.ValueOf" && core.StaticCalleeName(&cb.Call) == "reflect.ValueOf" {
+		return ca.Call.Args[0] == cb.Call.Args[0]
+	}
+	return false
+}
+
+// isDuplicateReject: lk is `_, present := m[k]` for the key k of an insertion into m in the same loop, and the
+// `present` branch cannot come back to the loop header (it rejects).
+func (c *Ctx) isDuplicateReject(l *mapLoop, lk *ssa.Lookup) bool {
+	if !lk.CommaOk {
+		return false
+	}
+	inserted := false
+	for b := range l.blocks {
+		for _, in := range b.Instrs {
+			if mu, ok := in.(*ssa.MapUpdate); ok && mu.Map == lk.X && sameKeyValue(mu.Key, lk.Index) {
+				inserted = true
+			}
+		}
+	}
+	if !inserted {
+		return false
+	}
+	for _, r := range *lk.Referrers() {
+		ex, ok := r.(*ssa.Extract)
+		if !ok || ex.Index != 1 {
+			continue
+		}
+		for _, r2 := range *ex.Referrers() {
+			ifi, ok := r2.(*ssa.If)
+			if !ok {
+				continue
+			}
+			present := ifi.Block().Succs[0]
+			if present == l.header || blockReaches(present, l.header, nil) {
+				return false
+			}
+			return true
+		}
+	}
+	return false
 }
